@@ -908,6 +908,16 @@ fn enumerate_schemas_base(thorough: bool) -> Vec<Schema> {
         b.push("G-enum", false, Kind::Enum(EnumS { enc: eenc, tag: None, index_only: false, variants }));
         let one = vec![VariantS { idx: 256, shape: Shape::Named, enc: None, tag: None, fields: vec![fld(1, FTy::U8)] }];
         b.push("G-enum", false, Kind::Enum(EnumS { enc: eenc, tag: None, index_only: false, variants: one }));
+        // variants declared in non-ascending index order (the index belongs to the variant, not to its position)
+        let shuffled = vec![
+            VariantS { idx: 5, shape: Shape::Tuple, enc: None, tag: None, fields: vec![fld(0, FTy::U8)] },
+            VariantS { idx: 0, shape: Shape::Unit, enc: None, tag: None, fields: vec![] },
+            VariantS { idx: 2, shape: Shape::Named, enc: None, tag: None, fields: vec![fld(0, FTy::OptU8), fld(1, FTy::U8)] },
+            VariantS { idx: 1, shape: Shape::Unit, enc: None, tag: None, fields: vec![] },
+        ];
+        b.push("G-enum", false, Kind::Enum(EnumS { enc: eenc, tag: None, index_only: false, variants: shuffled }));
+        let shuffled_io: Vec<VariantS> = [7u32, 0, 300, 3].iter().map(|i| VariantS { idx: *i, shape: Shape::Unit, enc: None, tag: None, fields: vec![] }).collect();
+        b.push("G-enum", false, Kind::Enum(EnumS { enc: eenc, tag: None, index_only: true, variants: shuffled_io }));
         // variant indices on both sides of every head-width boundary
         let wide: Vec<VariantS> = [23u32, 24, 255, 256, 65535, 65536]
             .iter()
